@@ -100,5 +100,34 @@ pub fn run() {
             }
         }
     }
+    // hand-registered look-alike definitions (no Location) that both match: on fresh collections (fresh hash seeds) the
+    // candidates must always be listed in the same order
+    let pairs: [(&str, &str); 6] = [
+        (r"^foo (\d+)$", r"foo (\d+)"),
+        (r"^foo (\d+)", r"foo (\d+)$"),
+        (r"foo (\d+)", r"foo (\d+) ?"),
+        (r"foo (\d+)", r"(?i)FOO (\d+)"),
+        (r"foo (\d+)", r"foo  ?(\d+)"),
+        (r"^foo 1$", r"^foo 1"),
+    ];
+    let feat = super::parse_feature("Feature: f\n  Scenario: s\n    Given foo 1\n");
+    let step = &feat.scenarios[0].steps[0];
+    for (k, (a, b)) in pairs.iter().enumerate() {
+        let mut seen: Vec<String> = vec![];
+        for round in 0..64 {
+            let (x, y) = if round % 2 == 0 { (a, b) } else { (b, a) };
+            let c = Collection::<W>::new()
+                .given(None, regex::Regex::new(x).unwrap(), f0)
+                .given(None, regex::Regex::new(y).unwrap(), f1);
+            let listing = match c.find(step) {
+                Err(e) => e.possible_matches.iter().map(|(r, _)| r.as_str().to_owned()).collect::<Vec<_>>().join(" , "),
+                _ => "not-ambiguous".to_owned(),
+            };
+            if !seen.contains(&listing) {
+                seen.push(listing);
+            }
+        }
+        println!("TIE pair={k} distinct={} listings={}", seen.len(), seen.join(" | ").replace(' ', "_"));
+    }
     println!("RESULT cases={n}");
 }
